@@ -234,21 +234,28 @@ def check_iterative(w, out, op, m, t, b, c, strong, tol, solver, r, restart=None
         return
     if not (x.space == op.domain):
         rec(out, "C15:%s:result-not-in-domain-space" % tag, "solution is not in the domain space")
-    if info != 0:
-        rec(out, "C15:%s:info-nonzero-on-well-conditioned-system" % tag, "info=%s tol=%g" % (info, tol),
-            {"tol": tol, "restart": restart})
-        return
-    # the system that was solved
     im = w.invmass[(w.sid[q], w.sid[u])]
     A = im @ m if strong else m
+    # CG on the strong form: M^-1 W is not symmetric unless the mass matrix is a multiple of the identity (recorded finding)
+    nonsym_cg = solver == "cg" and strong and float(np.abs(A - A.conj().T).max()) > 1e-12 * float(np.abs(A).max())
+    if info != 0:
+        if nonsym_cg:
+            rec(out, CG_STRONG_SIG, CG_STRONG_WHAT, {"tol": tol, "info": int(info)})
+        else:
+            rec(out, "C15:%s:info-nonzero-on-well-conditioned-system" % tag, "info=%s tol=%g" % (info, tol),
+                {"tol": tol, "restart": restart})
+        return
+    # the system that was solved
     rhs = np.asarray(b.coefficients if strong else b.projections(op.dual_to_range))
     xv = np.asarray(x.coefficients)
     relres = np.linalg.norm(rhs - A @ xv) / np.linalg.norm(rhs)
-    if relres > 1.5 * tol + 1e-13:
+    if relres > 1.5 * tol + 1e-13 and nonsym_cg:
+        rec(out, CG_STRONG_SIG, CG_STRONG_WHAT, {"tol": tol, "relative_residual": float(relres)})
+    elif relres > 1.5 * tol + 1e-13:
         rec(out, "C15:%s:residual-above-requested-tolerance" % tag, "relative residual %.3e > tol %.1e" % (relres, tol),
             {"tol": tol, "restart": restart})
     cond = np.linalg.cond(A)
-    if np.linalg.norm(xv - c) > 4 * cond * (tol + 1e-13) * np.linalg.norm(c):
+    if np.linalg.norm(xv - c) > 4 * cond * (tol + 1e-13) * np.linalg.norm(c) and not nonsym_cg:
         rec(out, "C15:%s:solution-differs-from-f-beyond-cond*tol" % tag,
             "error %.3e" % (np.linalg.norm(xv - c) / np.linalg.norm(c)), {"tol": tol})
     if count != len(res):
@@ -468,6 +475,38 @@ def blocked_search(w, out, thorough):
             "blocked lu(A, A*[f, g]) with dual dof counts [8, 6] and range dof counts [6, 8]: %s" % str(ex)[:160])
 
 
+CG_STRONG_SIG = "C15:cg-strong:system-matrix-M^-1*W-is-not-symmetric(cg-stalls-or-loses-accuracy-although-A-is-SPD)"
+CG_STRONG_WHAT = ("cg(A, b, use_strong_form=True) hands SciPy's CG the matrix M^-1 W, which is symmetric only with respect to the "
+                  "M-inner product; for an SPD operator A the weak-form CG converges (4 iterations on the witness) while the "
+                  "strong-form CG stalls above the requested tolerance (info = maxiter) whenever the mass matrix is not a "
+                  "multiple of the identity")
+
+
+def cg_strong_witness(w, out):
+    """Fixed, seed-independent system: DP0 on the tetrahedron (mass matrix diag(1/2, 1/2, 1/2, sqrt(3)/2)), W SPD, cond 3.2."""
+    sp = w.spaces[1]
+    W = np.array([[19, -4, -2, 0], [-4, 8, 0, 0], [-2, 0, 16, 4], [0, 0, 4, 14]], dtype="float64")
+    op = BoundaryOperatorWithAssembler(sp, sp, sp, c14.StubAssembler(W), None)
+    c = np.array([1.0, -2.0, 3.0, 0.5])
+    f = api.GridFunction(sp, coefficients=c)
+    b = op * f
+    out["evaluations"] += 2
+    xw, infow, cw = api.linalg.cg(op, b, tol=1e-10, maxiter=500, return_iteration_count=True)
+    if infow != 0 or not close(xw.coefficients, c):
+        rec(out, "C15:cg-weak:witness-system-does-not-converge", "weak-form cg on the fixed SPD witness: info=%s" % infow)
+    xs, infos, cs_ = api.linalg.cg(op, b, tol=1e-10, maxiter=500, use_strong_form=True, return_iteration_count=True)
+    A = np.asarray(op.strong_form().to_dense())
+    asym = float(np.abs(A - A.T).max())
+    rhs = np.asarray(b.coefficients)
+    relres = float(np.linalg.norm(rhs - A @ np.asarray(xs.coefficients)) / np.linalg.norm(rhs))
+    if infos != 0 or relres > 1.5e-10:
+        rec(out, CG_STRONG_SIG, CG_STRONG_WHAT,
+            {"space": "DP0 on the tetrahedron (0,0,0),(1,0,0),(0,1,0),(0,0,1)", "W": W.tolist(), "f": c.tolist(), "tol": 1e-10,
+             "maxiter": 500, "weak": {"info": int(infow), "iterations": int(cw)},
+             "strong": {"info": int(infos), "iterations": int(cs_), "relative_residual": relres},
+             "asymmetry_of_M^-1W": asym})
+
+
 def main():
     cfg = json.load(sys.stdin)
     thorough = cfg.get("strength") == "thorough"
@@ -476,6 +515,7 @@ def main():
         w = SWorld(rng(), thorough)
         out["env"] = w.env_json()
         correspondence(w, out, 80 if thorough else 36)
+        cg_strong_witness(w, out)
         solver_search(w, out, thorough)
     except Exception:
         out["crash"] = traceback.format_exc()
